@@ -330,10 +330,11 @@ def BIter.seek (it : BIter) (k : Bytes) : BIter × Bool :=
       else if blt k it.start then it.clear.bSeek it.start else it.clear.bSeek k
     (it', it'.valid)
 
-/-- `goBadgerDBIt.Next`: the first call on a fresh iterator is `Rewind` (in either direction);
-false when done or exhausted. -/
+/-- `goBadgerDBIt.Next`: the first call on a fresh forward iterator is `Rewind`, on a fresh
+reverse iterator it finds nothing (`done`); false when done or exhausted. -/
 def BIter.next (it : BIter) : BIter × Bool :=
-  if it.fresh then it.rewind
+  if it.fresh then
+    if it.reverse then ({ it with fresh := false, done := true }, false) else it.rewind
   else if it.done then (it, false)
   else
     match it.pos with
@@ -348,5 +349,40 @@ def BIter.drain : Nat → BIter → List Entry
   | fuel + 1, it => if it.valid then (it.key, it.value) :: BIter.drain fuel it.next.1 else []
 
 def BIter.scan (it : BIter) : List Entry := BIter.drain (it.all.length + 1) it.rewind.1
+
+/-! ### iterator sessions (for the step-level comparison of the two iterator machines) -/
+
+/-- one call on an open iterator. -/
+inductive IStep where
+  | rewind
+  | seek (k : Bytes)
+  | next
+  deriving Repr, DecidableEq
+
+/-- what a caller sees after a call: the returned Bool and, when `Valid()`, `Key()`/`Value()`. -/
+abbrev Obs := Bool × Option Entry
+
+def Iter.step (it : Iter) : IStep → Iter × Bool
+  | .rewind => it.rewind
+  | .seek k => it.seek k
+  | .next => it.next
+
+def Iter.obs (r : Iter × Bool) : Obs := (r.2, if r.1.valid then some (r.1.key, r.1.value) else none)
+
+/-- the observations of a sequence of calls. -/
+def Iter.session (it : Iter) : List IStep → List Obs
+  | [] => []
+  | st :: rest => Iter.obs (it.step st) :: Iter.session (it.step st).1 rest
+
+def BIter.step (it : BIter) : IStep → BIter × Bool
+  | .rewind => it.rewind
+  | .seek k => it.seek k
+  | .next => it.next
+
+def BIter.obs (r : BIter × Bool) : Obs := (r.2, if r.1.valid then some (r.1.key, r.1.value) else none)
+
+def BIter.session (it : BIter) : List IStep → List Obs
+  | [] => []
+  | st :: rest => BIter.obs (it.step st) :: BIter.session (it.step st).1 rest
 
 end C06
